@@ -235,6 +235,25 @@ theorem decTuple_total : ∀ (cs : List Codec) (buf : List Nat) (why : String), 
       simp only [h1, if_false]
       exact bindO_ne_panic (fun w => decTuple_total cs _ w hcs) (fun a w => by simp) why
 
+/-- The component's own decoder does not panic. -/
+def DecTotal (c : Codec) : Prop := ∀ b why, c.dec b ≠ .panic why
+
+/-- The walk never panics, whatever the components do with short buffers: there is no panic site left in it. -/
+theorem decTuple_total' : ∀ (cs : List Codec) (buf : List Nat) (why : String), (∀ c ∈ cs, DecTotal c) →
+    decTuple cs buf ≠ .panic why
+  | [], _, _, _ => by simp [decTuple]
+  | c :: cs, buf, why, h => by
+    simp only [decTuple]
+    cases hd : c.dec buf with
+    | panic w => exact absurd hd (h c (List.mem_cons_self ..) _ _)
+    | err e => simp [bindO]
+    | ok v =>
+      rw [bindO_ok]
+      split
+      · simp
+      · exact bindO_ne_panic (fun w => decTuple_total' cs _ w (fun x hx => h x (List.mem_cons_of_mem _ hx)))
+          (fun a w => by simp) why
+
 /-- A buffer shorter than the sum of the components' lengths is refused (by the first component that fails). -/
 theorem decTuple_short : ∀ (cs : List Codec) (buf : List Nat), AllLawfulC cs → buf.length < sumLen cs →
     ∃ e, decTuple cs buf = .err e
